@@ -10,7 +10,7 @@ CONSTANTS
   W <- TW
   S <- TS
   BitsOf <- TBits
-  BodyChecked = FALSE
+  BodyChecked = TRUE
   AllowRestart = TRUE
   AllowSync = TRUE
   FreshInits <- TFresh
